@@ -536,6 +536,29 @@ def f_cyc():
       (a if (n - 1) % 2 == 1 else b).append(last)
       blocks = [("blkB", "comb", b), ("blkA", "comb", a)] + ([("blkFill", "comb", fill)] if fill else [])
       yield f"cyc:pingpong:{carrier}:{n}", comp("CycPP", ins + sg, blocks=blocks), "false"
+  # three-block false loops with a "writer writes the whole signal, reader reads a part of it" hop (and an overlapping-sibling-slice
+  # hop): in -> X<lo> -> y -> z -> X<hi>; every block in turn is made the entry of the cyclic group by a predecessor, all source orders
+  for clabel, xt, mkx, rd in (
+      ("slice", B(4), lambda z, i: ("call", "concat", z, i), ref("X", ("s", 0, 2))),
+      ("field", Sab, lambda z, i: ("st", "Sab", z, i), ref("X", ("f", "b"))),
+      ("sibling", B(4), None, ref("X", ("s", 1, 3)))):
+    for entry in (None, "y", "z", "x"):
+      for oi, order in enumerate(itertools.permutations(range(3))):
+        sg = [("X", "wire", xt, ()), ("y", "wire", B(2), ()), ("z", "wire", B(2), ()), ("m", "wire", B(4), ()), ("q", "out", B(4), ())]
+        i2 = ref("in_", ("s", 0, 2))
+        tail = lambda k: [("=", ref("q"), ref("m"))] if entry == k else []
+        by = ("blkY", "comb", [("=", ref("y"), rd)] + tail("y"))
+        bz = ("blkZ", "comb", [("=", ref("z"), ref("y")), ("=", ref("out"), ref("z"))] + tail("z"))
+        if clabel == "sibling":
+          bx = ("blkX", "comb", [("=", ref("X", ("s", 0, 3)), ("call", "concat", ref("z", ("b", 0)), i2))] + tail("x"))
+          extra = [("blkFill", "comb", [("=", ref("X", ("b", 3)), ref("in_", ("b", 3)))])]
+        else:
+          bx = ("blkX", "comb", [("=", ref("X"), mkx(ref("z"), i2))] + tail("x"))
+          extra = []
+        pre = [("blkPre", "comb", [("=", ref("m"), ("bin", "+", ref("in_"), c(4, 3)))])]
+        if entry is None: pre = [("blkPre", "comb", [("=", ref("m"), ref("in_")), ("=", ref("q"), ref("in_"))])]
+        three = [by, bz, bx]
+        yield f"cyc:false-whole-part:{clabel}:entry-{entry}:o{oi}", comp("CycW", ins + sg, blocks=[three[k] for k in order] + extra + pre), "false"
   # two independent false loops + an acyclic part
   sgs = [("P", "wire", B(2), ()), ("R", "wire", B(2), ()), ("P2", "wire", B(2), ()), ("R2", "wire", B(2), ()), ("o2", "wire", B(2), ())]
   yield "cyc:false-two-sccs", comp("Cyc2", ins + sgs, blocks=[
